@@ -185,6 +185,14 @@ def gen_history(rng):
 def gen_join(rng):
     n = rng.choice([0, 1, 1, 2, 3, 4, 6])
     out = []
+    if rng.random() < 0.25:
+        # the same element several times and with both signs, in unequal numbers (x, x, -x sums to x)
+        cores = [gen_core(rng) for _ in range(rng.choice([1, 2]))]
+        if rng.random() < 0.3:
+            cores.append(gen_core(rng) + rng.choice(['+', ' + ']) + gen_core(rng))
+        for _ in range(rng.choice([2, 3, 3, 4, 5])):
+            out.append(rng.choice(['+', '-', '+', '-', '']) + rng.choice(cores))
+        return {'terms': out}
     for i in range(n):
         r = rng.random()
         if r < 0.6:
